@@ -9,7 +9,7 @@ RULE = ("for each honest (seed, message) pair: the honest triple, all 512 single
         "(y+p, x=0 with sign bit), strings that are not points, the all-zero key; crafted (A small-order, S=0, R in the small subgroup) triples that satisfy the "
         "cofactorless equation; constructed (identity key, R = enc(S0*B), S0 + k*L) signatures for S0 = 2^k, 2^k - 1 and boundary values (canonical accepted, aliases rejected); pattern triples; the expected verdict is computed for every case by executing the statement in python (key decodes "
         "permissively and is not all-zero, S < L, encode(S*B - h*A) == R bytewise); non-trivial = mutated or adversarial case; distinct = program text"
-        " Also: component shards from C15: canonical-scalar decoder sets, wide reduction, digit recodings (hook), point codec; the corpus again on the checked-arithmetic, force-32bits and native builds.")
+        " Also: every message length 0..=386 with a model-made signature (accepted), an altered and a shortened message (rejected); component shards from C15: canonical-scalar decoder sets, wide reduction, digit recodings (hook), point codec; the corpus again on the checked-arithmetic, force-32bits and native builds.")
 ASSUMPTIONS = ["python RFC 8032 arithmetic as in C13", "point decoding is permissive (y reduced mod p, x = 0 accepted with either sign), as in ref10 and this crate; "
                "the property lists non-canonical encodings separately from non-points"]
 
@@ -29,7 +29,7 @@ def extra_builds(tier):
 
 def bounds(tier):
     return {"honest_pairs": len(pairs(tier)), "sig_bits": 512, "key_bits": 256, "S_plus_kL": "all k with S+kL < 2^256",
-            "components": "C15 scalar, scalar hooks, codec"}
+            "components": "C15 scalar, scalar hooks, codec", "every_message_length": "0..=386"}
 
 
 def validate_models(tier):
@@ -159,7 +159,7 @@ def cases(tier):
 
 
 def _own_shards(tier):
-    return [("shard_pair", i) for i in range(len(pairs(tier)))] + [("shard_crafted", None)]
+    return [("shard_pair", i) for i in range(len(pairs(tier)))] + [("shard_crafted", None)] + [("shard_msglen", k) for k in range(4)]
 
 
 def _nt(ops, meta):
@@ -170,6 +170,30 @@ def shard_pair(i, tier):
     ck = core.Checker(PROPERTY_ID)
     cs = pair_cases(i, tier)
     ck.run(cs, nontrivial=_nt)
+    ck.stats.states = len(cs)
+    ck.stats.extra["accepting_cases"] = sum(1 for c in cs if c[2]["accept"])
+    return ck.stats
+
+
+MSGLEN_TOP = 3 * 128 + 2
+
+
+def shard_msglen(part, tier):
+    """every message length 0..=3*128+2 (every residue of the length of R || A || M modulo the SHA-512 block, three blocks deep): the
+    honest signature (made by the python model, so signing and verifying cannot be wrong together), the same with the last message
+    byte altered, and with the message one byte short"""
+    ck = core.Checker(PROPERTY_ID)
+    seed = pat(5, 11, 32)
+    _, pub = curve.ed_keypair(seed)
+    cs = []
+    for n in range(part, MSGLEN_TOP + 1, 4):
+        msg = pat(6, 2, n)
+        sig = curve.ed_sign(msg, seed)
+        cs.append(case(msg, pub, sig, False))
+        if n:
+            cs.append(case(msg[:-1] + bytes([msg[-1] ^ 1]), pub, sig))
+            cs.append(case(msg[:-1], pub, sig))
+    ck.run(cs, nontrivial=lambda ops, meta: True)
     ck.stats.states = len(cs)
     ck.stats.extra["accepting_cases"] = sum(1 for c in cs if c[2]["accept"])
     return ck.stats
